@@ -81,26 +81,37 @@ func gen(t *rapid.T) Case {
 			c.Stream = "joined"
 		}
 	}
+	lens := make([]int, np)
+	for p := range c.Parents {
+		lens[p] = len(c.Parents[p])
+	}
+	c.Schedules = genSchedules(t, lens)
+	return c
+}
+
+// genSchedules draws arrival schedules (sequences of parent indexes) for parents that deliver
+// lens[p] messages: the extremes first (each parent completely before the next, in both orders,
+// and strict alternation), then one or two random merges made of bursts. Shared by all units.
+func genSchedules(t *rapid.T, lens []int) [][]int {
+	np := len(lens)
 	// schedules: extremes first, then random merges
 	total := 0
-	for _, p := range c.Parents {
-		total += len(p)
+	for _, n := range lens {
+		total += n
 	}
 	var fwd, rev, alt []int
-	for p := range c.Parents {
-		for range c.Parents[p] {
+	for p := range lens {
+		for i := 0; i < lens[p]; i++ {
 			fwd = append(fwd, p)
 		}
 	}
-	for p := len(c.Parents) - 1; p >= 0; p-- {
-		for range c.Parents[p] {
+	for p := np - 1; p >= 0; p-- {
+		for i := 0; i < lens[p]; i++ {
 			rev = append(rev, p)
 		}
 	}
 	left := make([]int, np)
-	for p := range c.Parents {
-		left[p] = len(c.Parents[p])
-	}
+	copy(left, lens)
 	for len(alt) < total {
 		for p := 0; p < np; p++ {
 			if left[p] > 0 {
@@ -109,13 +120,11 @@ func gen(t *rapid.T) Case {
 			}
 		}
 	}
-	c.Schedules = [][]int{fwd, rev, alt}
+	scheds := [][]int{fwd, rev, alt}
 	extra := rapid.IntRange(1, 2).Draw(t, "nsched")
 	for s := 0; s < extra; s++ {
 		left := make([]int, np)
-		for p := range c.Parents {
-			left[p] = len(c.Parents[p])
-		}
+		copy(left, lens)
 		var sch []int
 		for len(sch) < total {
 			p := rapid.IntRange(0, np-1).Draw(t, "sp")
@@ -126,9 +135,9 @@ func gen(t *rapid.T) Case {
 				left[p]--
 			}
 		}
-		c.Schedules = append(c.Schedules, sch)
+		scheds = append(scheds, sch)
 	}
-	return c
+	return scheds
 }
 
 func (c Case) script() string {
@@ -288,27 +297,39 @@ func (c Case) expectedJoin(msgs [][]kit.Pt) []string {
 }
 
 func runSchedule(c Case, msgs [][]kit.Pt, sched []int) (obs []kit.Obs, gated bool, err error) {
+	prefix := "join"
+	if c.Union {
+		prefix = "union"
+	}
+	return runGated(c.script(), prefix, kapacitor.StreamTask, len(msgs), sched, func(env *kit.Env, id string, p, i int) error {
+		return env.TM.WriteKapacitorPoint(msgs[p][i].Msg())
+	})
+}
+
+// runGated starts the task, feeds the parents' messages one at a time in the order of sched
+// (feed(env, taskID, p, i) delivers the i-th message of parent p) and after each one waits until
+// the node whose name starts with prefix (join/union) has collected everything fed so far; then
+// the inputs are closed and the task is waited for. It returns what the sink 'J' observed. Shared
+// by all units (stream: points through the TaskMaster; batch: batches through the task's batch
+// collectors, closed by closeInputs).
+func runGated(script, prefix string, tt kapacitor.TaskType, np int, sched []int, feed func(env *kit.Env, id string, p, i int) error) (obs []kit.Obs, gated bool, err error) {
 	env, err := kit.NewEnv(kit.EnvOpts{})
 	if err != nil {
 		return nil, false, err
 	}
 	defer env.Close()
 	id := "t" + kit.Unique()
-	et, err := env.StartTask(id, c.script(), kapacitor.StreamTask, nil)
+	et, err := env.StartTask(id, script, tt, nil)
 	if err != nil {
 		return nil, false, fmt.Errorf("script rejected: %w", err)
 	}
-	next := make([]int, len(msgs))
+	next := make([]int, np)
 	fed := int64(0)
 	gated = true
-	prefix := "join"
-	if c.Union {
-		prefix = "union"
-	}
 	for _, p := range sched {
-		m := msgs[p][next[p]]
+		i := next[p]
 		next[p]++
-		if err := env.TM.WriteKapacitorPoint(m.Msg()); err != nil {
+		if err := feed(env, id, p, i); err != nil {
 			return nil, false, err
 		}
 		fed++
@@ -338,7 +359,13 @@ func runSchedule(c Case, msgs [][]kit.Pt, sched []int) (obs []kit.Obs, gated boo
 			time.Sleep(50 * time.Microsecond)
 		}
 	}
-	env.TM.Drain()
+	if tt == kapacitor.BatchTask {
+		for _, col := range env.TM.BatchCollectors(id) {
+			col.Close()
+		}
+	} else {
+		env.TM.Drain()
+	}
 	et.StopStats()
 	if werr := et.Wait(); werr != nil {
 		return nil, gated, fmt.Errorf("task ended with error: %w", werr)
